@@ -46,13 +46,16 @@ PROP = {
  'level_text': 'Coq theorems: an independent protocol printer (keys, kitty keys, SGR mouse, CPR, size, DECRPM, DA1, OSC colours in '
                '4/8/12/16-bit forms, XTGETTCAP, kitty image replies, bracketed paste, UTF-8 text) followed by the model of '
                'TTYEventDecoder over the regenerated production automaton returns, for every well-formed self-delimiting report with any '
-               'parameter values and any following input, the event the report denotes (every family; an SGR sequence by the meaning of '
-               'its modification record, via the C06 reference machine); sequences decode to the sequence of their events; table '
-               'theorems (DEC modes, literal key table, xterm reference encoding of the keys, modifier convention, CPR vs F3) are '
-               're-checked on regenerated data.',
- 'level_note': 'Restricted statements: C04_xterm_keys_upto_mask7 (the table stops at modifier mask 7: known finding C04-key-mask, class '
-               'key-mask-ge-8 with require_agree); face reports / SGR events with 7/27/39/49: known finding, class sgr-inexpressible-report with '
-               'require_agree (predicate = reference machine only); *_partial = every family except RSgr, which has C04_sgr_event. Trusted: Coq kernel + vm_compute; DFA dump hook + translate/dfa.py + translate/c04keys.py; hand-written payload '
+               'parameter values and any following input, the event the report denotes (every family accepted by `proved_family`: all but '
+               'SGR events, which are characterised by the meaning of their modification record via the C06 reference machine '
+               '(C04_sgr_event), and DECRPSS face reports carrying SGR 7/27/39/49, a known finding); sequences decode to the sequence of '
+               'their events; table theorems (DEC modes, literal key table, xterm reference encoding of the keys with every modifier mask '
+               '0..255, modifier convention of the parsed matcher, CPR vs F3) are re-checked on regenerated data.',
+ 'level_note': 'Restricted statements: *_partial = every report with `proved_family r = true`, i.e. all but RSgr (which has C04_sgr_event, '
+               'hypotheses sgr_wf and not sgr_inexpressible) and RFaceReport with 7/27/39/49 (known finding, class sgr-inexpressible-report '
+               'with require_agree, tag derived in the harness from the parameter string; predicate = reference machine only). '
+               'C04_xterm_keys covers every mask since crate fix 8f4107f (former finding C04-key-mask); PC-style F3 with mask >= 8 is '
+               'outside wf because its bytes are a cursor position report. C04_key_modifiers: codes below 32, parameters 1..256. Trusted: Coq kernel + vm_compute; DFA dump hook + translate/dfa.py + translate/c04keys.py; hand-written payload '
                'models validated by the correspondence run; C03 theorem (feeding any partition of the stream = munch); the printer '
                '(Decoder/Printer.v) as the meaning of the protocols. No axioms.',
  'technique': 'Coq proof (reflection: verified reachability checker over the regenerated automaton for each family grammar, '
@@ -66,13 +69,20 @@ PROP = {
  'trusted_base': [KERNEL,
                   'verif-hooks dump of the compiled event automaton, translate/dfa.py (Gen/ProdDFA.v) and translate/c04keys.py '
                   '(Gen/C04Keys.v: key names of the literal items, DecMode / DecModeStatus discriminants)',
-                  'hand-written model Decoder/EvModel.v of the fourteen Matcher::decode bodies, tied to the code by the correspondence run',
+                  'hand-written model Decoder/EvModel.v of the fifteen Matcher::decode bodies, tied to the code by the correspondence run',
                   'specification Decoder/Printer.v: protocol printer written from ECMA-48 / DEC / xterm ctlseqs / kitty protocol documents',
                   'C03: the incremental tokeniser under any partition into reads computes `munch` (Automata/TokenizerTheorems.v)',
                   HARNESS],
  'assumptions': ['coordinates 1..65535, other numbers below 2^32 (at most 19 digits); colour channels of 4, 8, 12 or 16 bits, any value',
                  'kitty keys without event types and text field (enhancement flags 2 and 16 are not requested by the library)',
                  'payload text is valid UTF-8 without ESC',
+                 'modifier masks 0..255 for xterm-style and kitty keys; PC-style modified F3 (CSI 1;n R) only with masks 1..7: for larger n the '
+                 'bytes are read as the cursor position report (RCursor excludes row 1, columns 2..8 instead)',
+                 'DA1 attribute lists are non-empty with every attribute > 0; they denote the sorted duplicate-free list',
+                 'SGR mouse: the event carries button, modifiers, press/release and coordinates; the motion flag (bit 32) is not represented in '
+                 'MouseEvent and is dropped by `denote`; codes without a named button denote Raw',
+                 'SGR events and DECRPSS face reports: parameter strings with sgr_wf (digits, `;`, `:`; bounded numbers; complete colour '
+                 'specifications) and, for the reference-machine statements, none of 7/27/39/49',
                  'table keys other than the six bare ESC-prefixes (ESC, ESC O, ESC P, ESC [, ESC ], ESC _), which are not self-delimiting; '
                  'CSI 1;nR is resolved for the key; self-delimitation of every other well-formed report is a theorem'],
 }
